@@ -77,9 +77,10 @@ Qed.
 
 Lemma rv_equiv_refl (v : rv) : rv_equiv veq v v.
 Proof.
-  destruct v as [m|c]; cbn.
+  destruct v as [m|c|]; cbn.
   - apply model_equiv_refl. exact Hrefl.
   - apply Forall2_refl_all. exact Hrefl.
+  - exact I.
 Qed.
 
 (* ---------- what the handler substitutes = what get serves ---------- *)
@@ -166,12 +167,12 @@ Proof.
   pose proof (eff_typed cfg id rid x) as Tx. pose proof (eff_typed cfg id rid y) as Ty.
   destruct (eff cfg id x) as [bv|]; destruct (eff cfg id y) as [av|]; cbn [cl].
   - specialize (Tx bv Hok Hx eq_refl). specialize (Ty av Hok Hy eq_refl).
-    destruct (c_typ cfg); destruct bv as [a|a]; try contradiction; destruct av as [b|b]; try contradiction;
+    destruct (c_typ cfg); destruct bv as [a|a|]; try contradiction; destruct av as [b|b|]; try contradiction;
       cbn [rv_typed] in Tx, Ty.
     + (* model *)
       eexists. split; [reflexivity|]. split.
       { apply Forall_forall. intros e He. apply in_map_iff in He. destruct He as (e0 & <- & _). reflexivity. }
-      intros c Hc. destruct c as [|[m|l]]; cbn in Hc; try contradiction.
+      intros c Hc. destruct c as [|[m|l|]]; cbn in Hc; try contradiction.
       pose proof (model_apply_pf V veq a b m Heq Tx Ty Hc) as Hres.
       rewrite map_map. cbn [snd]. rewrite map_id.
       unfold change_event. destruct (model_diff V veq a b) as [|p ch] eqn:Ed; cbn [is_nil apply_events apply_event].
@@ -181,7 +182,7 @@ Proof.
       destruct (collection_script_correct_pf V veq Hrefl a b) as (es & r & Hd & Hap & Hrb).
       rewrite Hd. eexists. split; [reflexivity|]. split.
       { apply Forall_forall. intros e He. apply in_map_iff in He. destruct He as (e0 & <- & _). reflexivity. }
-      intros c Hc. destruct c as [|[m|l]]; cbn in Hc; try contradiction.
+      intros c Hc. destruct c as [|[m|l|]]; cbn in Hc; try contradiction.
       destruct (apply_colls_rel es l a r Hc Hap) as (r' & Hl & Hr').
       rewrite map_map. cbn [snd]. rewrite map_id.
       rewrite (apply_events_colls es l r' Hl).
@@ -209,7 +210,7 @@ Proof.
   destruct (eff cfg id x) as [bv|]; destruct (eff cfg id y) as [av|]; cbn [cl cstate_equiv]; try contradiction;
     [|reflexivity].
   specialize (Tx bv Hok Hx eq_refl). specialize (Ty av Hok Hy eq_refl).
-  destruct (c_typ cfg); destruct bv as [a|a]; try contradiction; destruct av as [b|b]; try contradiction;
+  destruct (c_typ cfg); destruct bv as [a|a|]; try contradiction; destruct av as [b|b|]; try contradiction;
     cbn [rv_typed rv_equiv] in *; intros He.
   - assert (Hd : model_diff V veq a b = []).
     { apply model_diff_nil_iff; try assumption.
@@ -239,7 +240,7 @@ Proof.
   pose proof (eff_typed cfg id rid x) as Tx. pose proof (eff_typed cfg id rid y) as Ty.
   destruct (eff cfg id x) as [bv|]; destruct (eff cfg id y) as [av|]; cbn [cl]; try (eexists; split; reflexivity).
   specialize (Tx bv Hok Hx eq_refl). specialize (Ty av Hok Hy eq_refl).
-  destruct (c_typ cfg); destruct bv as [a|a]; try contradiction; destruct av as [b|b]; try contradiction.
+  destruct (c_typ cfg); destruct bv as [a|a|]; try contradiction; destruct av as [b|b|]; try contradiction.
   - eexists. split; [reflexivity|]. unfold change_event.
     destruct (is_nil (model_diff V veq a b)); repeat constructor.
   - destruct (collection_script_correct_pf V veq Hrefl a b) as (es & r & Hd & Hap & _).
